@@ -12,8 +12,10 @@ from harness.props.c15 import compare_world
 
 OBLIGATIONS = [
     "PgmVerif.C13_do_surgery", "PgmVerif.C13_do_acyclic", "PgmVerif.C13_parents_adjustment",
+    "PgmVerif.C13_parent_adjustment_exact",
 ]
-PARTIAL = ["back-door adjustment = truncated factorisation for arbitrary valid sets needs the global Markov property: decided by the "
+PARTIAL = ["adjustment over any set Z that contains the parents of X and no descendant is proved equal to the truncated factorisation "
+           "(C13_parent_adjustment_exact); for arbitrary sets satisfying the back-door criterion the equality needs the global Markov property: decided by the "
            "correspondence (every enumerated valid set, both back-ends) against the exact truncated factorisation",
            "engine validity tests <=> path criteria: decided exhaustively on all DAGs up to 4 nodes (5 in thorough) against the path-enumeration spec"]
 RULE = ("random BNs of 2-5 nodes with optional latents; do-sets single and multiple incl. parent-child pairs; query sets disjoint from the "
@@ -22,8 +24,10 @@ RULE = ("random BNs of 2-5 nodes with optional latents; do-sets single and multi
 ASSUMPTIONS = ["P(do-state, adjustment state) > 0 for every adjustment state (verified exactly by the model before a case counts)"]
 BUDGET_QUICK = 100
 LEVEL_TEXT = ("Kernel-checked: do() on the model removes exactly the incoming edges of the intervened nodes, keeps the node set and "
-              "acyclicity, and leaves every other CPD untouched; for a single intervened variable with observed parents Z = pa(X), adjusting "
-              "over Z reproduces the truncated factorisation term by term (P(x | z) cancels). The implementation is tied by: do() compared "
+              "acyclicity, and leaves every other CPD untouched; for EVERY network (any shape, cardinalities, outcome set Y) and a single "
+              "intervened variable X, the adjustment formula sum_z P(y | x, z) P(z) over a set Z that covers pa(X) equals the marginal of the "
+              "truncated factorisation (product of all CPDs but X's), given P(x | z) != 0 and P(z) != 0 (C13_parent_adjustment_exact, "
+              "built on the descendants-sum-to-one lemma). The implementation is tied by: do() compared "
               "with the model state machine; every CausalInference.query (default set, every enumerated valid back-door set, ve and bp, "
               "single and multiple do incl. parent-child pairs) compared with the exact truncated factorisation; all enumerated back-door / "
               "front-door / minimal sets and the validity tests compared with the path criteria exhaustively on DAGs <= 4 nodes.")
